@@ -86,10 +86,16 @@ def query_pool(world, seed=2):
     return pool
 
 
-def fasta_bytes(contigs, width=60, eol='\n', lower=False):
+def soft_mask(c, period=7, run=3):
+    """mixed case as in soft-masked assemblies: every `period`-th stretch of `run` letters in lower case (case boundaries fall inside
+    prefix occurrences and k-mers)"""
+    return ''.join(ch.lower() if (j % period) < run else ch for j, ch in enumerate(c))
+
+
+def fasta_bytes(contigs, width=60, eol='\n', lower=False, mixed=False):
     out = []
     for i, c in enumerate(contigs):
-        c = c.lower() if lower else c
+        c = c.lower() if lower else soft_mask(c, 7 + i, 3) if mixed else c
         out.append(f'>contig{i + 1} d{eol}')
         for a in range(0, max(len(c), 1), width):
             out.append(c[a:a + width] + eol)
@@ -119,7 +125,7 @@ def real_signature(kspec, contigs):
 
 
 def build_db(dirpath, world, *, id_attr='key', sig_order=None, extra_sigs=(), gdb_name='ref.gdb', gs_name='ref.gs',
-             int_ids=False, genome_order=None):
+             int_ids=False, genome_order=None, annot_order=None):
     """Write <dir>/ref.gdb (sqlite, via the repo's models) and <dir>/ref.gs (via dump_signatures).
 
     sig_order: order of the genomes' signatures in the file (list of 0-based genome indices); extra_sigs: (id, contigs)
@@ -147,11 +153,25 @@ def build_db(dirpath, world, *, id_attr='key', sig_order=None, extra_sigs=(), gd
                 taxa[i].parent = taxa[t['parent'] - 1]
         s.add_all(taxa)
         order = genome_order if genome_order is not None else list(range(len(world['genomes'])))
-        for gi in order:
-            g = world['genomes'][gi]
-            genome = Genome(key=g['key'], description=g['desc'], ncbi_db=g.get('ncbi_db', 'assembly'), ncbi_id=g.get('ncbi_id'),
-                            genbank_acc=g.get('genbank_acc'), refseq_acc=g.get('refseq_acc'))
-            s.add(AnnotatedGenome(genome=genome, genome_set=gset, taxon=taxa[g['taxon'] - 1], organism='org'))
+        if annot_order is None:
+            for gi in order:
+                g = world['genomes'][gi]
+                genome = Genome(key=g['key'], description=g['desc'], ncbi_db=g.get('ncbi_db', 'assembly'), ncbi_id=g.get('ncbi_id'),
+                                genbank_acc=g.get('genbank_acc'), refseq_acc=g.get('refseq_acc'))
+                s.add(AnnotatedGenome(genome=genome, genome_set=gset, taxon=taxa[g['taxon'] - 1], organism='org'))
+        else:
+            # genomes imported first, attached to the genome set later and in another order (rows of the two tables in different orders)
+            rows = {}
+            for gi in order:
+                g = world['genomes'][gi]
+                rows[gi] = Genome(key=g['key'], description=g['desc'], ncbi_db=g.get('ncbi_db', 'assembly'), ncbi_id=g.get('ncbi_id'),
+                                  genbank_acc=g.get('genbank_acc'), refseq_acc=g.get('refseq_acc'))
+                s.add(rows[gi])
+                s.flush()
+            for gi in annot_order:
+                g = world['genomes'][gi]
+                s.add(AnnotatedGenome(genome=rows[gi], genome_set=gset, taxon=taxa[g['taxon'] - 1], organism='org'))
+                s.flush()
         s.commit()
     engine.dispose()
     ks = KmerSpec(world['kspec'][0], world['kspec'][1])
